@@ -7,6 +7,7 @@
 From Coq Require Import List NArith ZArith Bool.
 Import ListNotations.
 From RV Require Import Literal.Model Literal.Token Literal.Proofs Literal.Decimal Literal.Tie.
+From RV Require Import Literal.BinaryModel Literal.BinaryProofs Literal.TemporalModel Literal.TemporalProofs.
 
 (* ---------------- integer datatypes ---------------- *)
 
@@ -265,6 +266,81 @@ Theorem C09_invalid_forms_accepted_examples :
       /\ l_lex (construct DDecimal [49; 101; 53]%N true) = [49; 48; 48; 48; 48; 48]%N).
 Proof. exact invalid_forms_accepted_examples. Qed.
 Print Assumptions C09_invalid_forms_accepted_examples.
+
+(* ---------------- xsd:hexBinary, xsd:base64Binary (coq/Literal/BinaryModel.v) ---------------- *)
+
+(* the codecs rdflib uses, against the XSD lexical spaces: every valid form is read with the XSD value *)
+Theorem C09_binary_valid_forms_read :
+  (forall l bs, xsd_hex l = Some bs -> unhex l = Some bs)
+  /\ (forall l bs, xsd_b64 l = Some bs -> b64decode l = Some bs).
+Proof. split; [exact unhex_xsd|exact b64decode_xsd]. Qed.
+Print Assumptions C09_binary_valid_forms_read.
+
+(* value -> form -> value is the identity for every byte string, and the form is in the lexical space *)
+Theorem C09_binary_roundtrip :
+  (forall bs, is_bytes bs = true -> unhex (hexlify bs) = Some bs /\ xsd_hex (hexlify bs) = Some bs)
+  /\ (forall bs, is_bytes bs = true -> b64decode (b64encode bs) = Some bs /\ xsd_b64 (b64encode bs) = Some bs)
+  /\ (forall l bs, unhex l = Some bs -> is_bytes bs = true)
+  /\ (forall l bs, b64decode l = Some bs -> is_bytes bs = true).
+Proof. split; [exact unhex_hexlify|split; [exact b64_encode_roundtrip|split; [exact unhex_bytes|exact b64decode_bytes]]]. Qed.
+Print Assumptions C09_binary_roundtrip.
+
+(* the pipeline with the reflected rows (converter, by-value checker, specific lexicaliser rule) and normalize()
+   as repaired by d1e79be9: valid forms accepted unflagged with the XSD value, the normal form valid with the same
+   value, normalize() and construction-time normalisation idempotent for every form *)
+Theorem C09_hexBinary_faithful : bin_faithful BHex.
+Proof. apply bin_faithful_all. Qed.
+Print Assumptions C09_hexBinary_faithful.
+
+Theorem C09_base64Binary_faithful : bin_faithful BB64.
+Proof. apply bin_faithful_all. Qed.
+Print Assumptions C09_base64Binary_faithful.
+
+(* the tie for the binary suite: every case (lexical forms, valid or not, and pairs) *)
+Theorem C09_binary_spec_ok_model : forall c, bspec_ok c (bmodel_obs c) = true.
+Proof. exact bspec_ok_model. Qed.
+Print Assumptions C09_binary_spec_ok_model.
+
+(* ---------------- xsd:date, xsd:time, xsd:dateTime (coq/Literal/TemporalModel.v) ---------------- *)
+
+(* fromisoformat reads back what isoformat() writes, for every date / time / datetime python can build
+   (years 1..9999, microseconds, any whole-minute offset below 24 h) *)
+Theorem C09_temporal_roundtrip : forall v, tval_pwf v = true -> py_parse (tdt_of v) (py_print v) = Some v.
+Proof. exact py_roundtrip. Qed.
+Print Assumptions C09_temporal_roundtrip.
+
+(* for every well-formed value whose offset XSD can express (at most 14:00): the isoformat is in the XSD lexical
+   space, inside the guard, denotes exactly that value; the literal built from it is not flagged, has that value,
+   and normalize() / re-reading change nothing *)
+Theorem C09_temporal_faithful_partial : temporal_faithful.
+Proof. exact temporal_faithful_all. Qed.
+Print Assumptions C09_temporal_faithful_partial.
+
+(* normalize() twice = once for every form of the shape *)
+Theorem C09_temporal_normalize_idempotent : forall d l norm,
+  tnormalize d (tnormalize d (tconstruct d l norm)) = tnormalize d (tconstruct d l norm).
+Proof. exact tnormalize_idem. Qed.
+Print Assumptions C09_temporal_normalize_idempotent.
+
+(* the tie for the temporal suite, PARTIAL: python values and lexical forms that are the isoformat of a well-formed
+   value.  Missing: the other valid forms inside the guard (Z, leading/trailing fraction zeros, -00:00 ...) - for
+   them "valid and in_guard => read with the XSD value" is checked by the run (bit 8 of every case), not proved *)
+Theorem C09_temporal_spec_ok_model_partial : forall c, twf_core c = true -> tspec_ok c (tmodel_obs c) = true.
+Proof. exact tspec_ok_model_partial. Qed.
+Print Assumptions C09_temporal_spec_ok_model_partial.
+
+(* F14g in the model: 24:00:00 flagged, the zone of a date lost, a 7th fraction digit dropped *)
+Theorem C09_temporal_outside_guard_refuted :
+  (let l := [50;48;50;48;45;48;49;45;48;49;84;50;52;58;48;48;58;48;48]%N in
+   xsd_tvalue TDateTime l <> None /\ t_ill (tconstruct TDateTime l true) = Some true)
+  /\ (let l := [50;48;50;48;45;48;49;45;48;49;90]%N in
+      xsd_tvalue TDate l = Some (XDate 2020 1 1 (Some 0%Z))
+      /\ t_lex (tconstruct TDate l true) = [50;48;50;48;45;48;49;45;48;49]%N
+      /\ tval_is (t_val (tconstruct TDate l true)) (XDate 2020 1 1 (Some 0%Z)) = false)
+  /\ (let l := [49;50;58;48;48;58;48;48;46;49;50;51;52;53;54;55]%N in
+      xsd_tvalue TTime l <> None /\ t_val (tconstruct TTime l true) = Some (VTime 12 0 0 123456 None)).
+Proof. exact temporal_outside_guard_refuted. Qed.
+Print Assumptions C09_temporal_outside_guard_refuted.
 
 (* non-vacuity: valid non-canonical forms are in scope, the checker rejects wrong answers *)
 Example C09_nonvacuous :
